@@ -216,6 +216,76 @@ def shipped_default(ctx):
         ctx.fail({"features": "html.parser"}, "constructor raised", type(e).__name__, "a tree")
 
 
+def interleaved(ctx):
+    """Lookups between registrations, and after the registry's public tables have been read: the answer to a request
+    depends on the registrations made so far and on nothing else (no earlier lookup, no inspection of
+    builders_for_feature / builders may change it)."""
+    rng = ctx.rng
+    hists = [h for h in histories(ctx, 3) if len(h) >= 2 and rng.random() < (0.5 if ctx.thorough else 0.12)]
+    hists += list(random_histories(ctx, 600 if ctx.thorough else 120))
+    reqs = [[], ["html"], ["fast"], ["Xml"], [UNKNOWN], ["html", "fast"], ["fast", UNKNOWN], ["Xml", "html"], [UNKNOWN, "html", "fast"]]
+    n = 0
+    for hi, h in enumerate(hists):
+        ids = [b for b, _ in h]
+        if len(set(ids)) != len(ids):
+            continue
+        reg = TreeBuilderRegistry()
+        inspect = hi % 2 == 0
+        for k in range(len(h) + 1):
+            if k > 0:
+                reg.register(mkclass(*h[k - 1]))
+            if inspect:
+                for f in UNIV + [UNKNOWN]:
+                    reg.builders_for_feature[f]          # reading the public table
+                list(reg.builders)
+            for r in reqs:
+                try:
+                    got = reg.lookup(*r)
+                    got = None if got is None else got.bid
+                except Exception as e:
+                    got = "EXC:" + type(e).__name__
+                exp = spec_lookup(h[:k], r)
+                ctx.case(("interleaved", hi, k, tuple(r)), nontrivial=k > 0 and bool(r))
+                n += 1
+                if got != exp:
+                    ctx.fail({"history": h[:k], "request": r, "earlier": "lookups of %r after each of the %d earlier registrations%s"
+                              % (reqs, k, "; builders_for_feature[f] read for f in %r" % (UNIV + [UNKNOWN]) if inspect else "")},
+                             "lookup between registrations differs from the documented choice for the registrations made so far",
+                             observed=got, expected=exp, tag="interleaved")
+    ctx.count("interleaved_lookups", n)
+
+
+def subclass_default(ctx):
+    """A BeautifulSoup subclass that overrides DEFAULT_BUILDER_FEATURES: with no features given, ITS default request is looked up."""
+    saved = bs4.builder_registry
+    hists = [[(0, ["html"])], [(0, ["html", "fast"]), (1, ["Xml"])], [(0, ["Xml"]), (1, ["html"])], [(0, ["fast"]), (1, ["html", "fast"])], []]
+    try:
+        for h in hists:
+            reg = TreeBuilderRegistry()
+            for b, fs in h:
+                reg.register(mkclass(b, fs))
+            bs4.builder_registry = reg
+            for override in (["Xml"], ["fast"], [UNKNOWN], ["html", "fast"], ["Xml", "html"], ("html",)):
+                Sub = type("SubSoup", (bs4.BeautifulSoup,), {"DEFAULT_BUILDER_FEATURES": override})
+                for fa in (None, [], ()):
+                    with warnings.catch_warnings():
+                        warnings.simplefilter("ignore")
+                        try:
+                            soup = Sub("x", fa)
+                            obs = type(soup.builder).bid
+                        except FeatureNotFound:
+                            obs = None
+                        except Exception as e:
+                            obs = "EXC:" + type(e).__name__
+                    exp = spec_lookup(h, list(override))
+                    ctx.case(("subclass-default", repr(h), repr(override), repr(fa)))
+                    if obs != exp:
+                        ctx.fail({"history": h, "subclass DEFAULT_BUILDER_FEATURES": list(override), "features": fa},
+                                 "with no features given the subclass's default request is not what is looked up", obs, exp, tag="subclass-default")
+    finally:
+        bs4.builder_registry = saved
+
+
 def run(ctx):
     maxn = 4 if ctx.thorough else 3
     batch = []
@@ -230,6 +300,8 @@ def run(ctx):
     rh = list(random_histories(ctx, 3000 if ctx.thorough else 400))
     check_batch(ctx, rh, REQUESTS[:85])
     constructor_cases(ctx)
+    interleaved(ctx)
+    subclass_default(ctx)
     shipped_default(ctx)
 
 
